@@ -55,7 +55,9 @@ Proof. exact clone_total. Qed.
 Print Assumptions C17_clone_total.
 
 (* the runtime record of the copy: global object, the fields of rt.global and the eval
-   intrinsic are the renamed originals, whatever the global property `eval` holds *)
+   intrinsic are the renamed originals, whatever the global property `eval` holds, and the
+   host settings (debugger handler, random source, stack depth limit, stack trace limit:
+   rt_cfg, kept by rename_rt) are those of the original *)
 Theorem C17_runtime_copy_correct : forall h fuel rt n0 h' phi rt',
   clone_runtime h fuel rt n0 = ROk h' phi rt' ->
   iso h h' phi /\ rt' = rename_rt (app_memo phi) rt /\
@@ -162,12 +164,12 @@ Example C17_argparam_now_copied :
 Proof. eexists. split; [vm_compute; reflexivity | vm_compute; reflexivity]. Qed.
 
 Example C17_eval_rebound_now_copied :
-  (exists h' phi rt', clone_runtime h_evalgone 10 (mkRt 1 [] 2) 100 = ROk h' phi rt' /\
-                      rt_eval rt' = app_memo phi 2 /\ check_iso h_evalgone h' phi = true) /\
-  (exists h' phi rt', clone_runtime h_evalswap 10 (mkRt 1 [] 2) 100 = ROk h' phi rt' /\
-                      rt_eval rt' = app_memo phi 2 /\ check_iso h_evalswap h' phi = true).
+  (exists h' phi rt', clone_runtime h_evalgone 10 (mkRt 1 [] 2 [0; 0; 60; 3]) 100 = ROk h' phi rt' /\
+                      rt_eval rt' = app_memo phi 2 /\ rt_cfg rt' = [0; 0; 60; 3] /\ check_iso h_evalgone h' phi = true) /\
+  (exists h' phi rt', clone_runtime h_evalswap 10 (mkRt 1 [] 2 [0; 0; 0; 10]) 100 = ROk h' phi rt' /\
+                      rt_eval rt' = app_memo phi 2 /\ rt_cfg rt' = [0; 0; 0; 10] /\ check_iso h_evalswap h' phi = true).
 Proof.
-  split; do 3 eexists; (split; [vm_compute; reflexivity|]); split; vm_compute; reflexivity.
+  split; do 3 eexists; (split; [vm_compute; reflexivity|]); repeat split; vm_compute; reflexivity.
 Qed.
 
 (* holders frozen before Copy() with getter-only, setter-only and getter+setter members over a
